@@ -61,6 +61,22 @@ def unput_cases(rng, tier):
     return cases
 
 
+UNPUT_MAIN = r"""
+int main(int argc, char **argv)
+{
+    static char data[4096]; int n; FILE *f = fopen(argv[1], "rb");
+    %(DECL)s
+    if (!f) return 2;
+    %(INIT)s
+    if (getenv("UNPUT_BYTES")) { n = (int) fread(data, 1, sizeof data, f); fclose(f); yy_scan_bytes(data, n %(S)s); }
+    else %(SETIN)s;
+    %(LEX)s;
+    %(FINI)s
+    return 0;
+}
+"""
+
+
 def unput_worker(case):
     import os
     import scanner
@@ -75,7 +91,13 @@ def unput_worker(case):
         act = ('tok(1); { static int k = -1; int i; if (k < 0) k = atoi(getenv("UNPUT_K")); '
                'for (i = 0; i < k; i++) { yyunput(49 + i % 9); } }')
         options = ["bufsize=%d" % n] if be == 'c99' else []
-        text = scanner.make_spec(prog, Rng(case['seed']).fork("print"), options=options, actions={0: act}, backend=be)
+        epi = None
+        if be in ('nr', 'r'):
+            sub = {'nr': dict(DECL="", INIT="", S="", SETIN="yyin = f", LEX="yylex()", FINI="yylex_destroy();"),
+                   'r': dict(DECL="yyscan_t s;", INIT="if (yylex_init(&s)) return 3;", S=", s", SETIN="yyset_in(f, s)", LEX="yylex(s)",
+                             FINI="yylex_destroy(s);")}[be]
+            epi = backends.EMIT + UNPUT_MAIN % sub
+        text = scanner.make_spec(prog, Rng(case['seed']).fork("print"), options=options, actions={0: act}, backend=be, epilogue=epi)
         text = text.replace(" nounput", "")
         res['text'] = text
         with open(os.path.join(wd, "s.l"), "w") as f:
@@ -91,31 +113,39 @@ def unput_worker(case):
             res['problems'].append(('compile-error', err.decode(errors='replace')[:400]))
             return res
         queries, reals = [], []
-        for (L, pos, k) in case['runs']:
+        allruns = [(L, pos, k, False) for (L, pos, k) in case['runs']]
+        if epi:
+            # the same grid on a buffer made by yy_scan_bytes: it is exactly as large as its content (coq/Unput.v scan_bytes)
+            allruns += [(L, pos, k, True) for (L, pos, k) in case['runs'] if L <= 9 and k <= L + 2]
+        for (L, pos, k, inmem) in allruns:
             data = [97] * pos + [120] + [98] * (L - pos - 1)
             ip = os.path.join(wd, "in.bin")
             with open(ip, "wb") as f:
                 f.write(bytes(data))
-            rc, out, err = run([os.path.join(wd, "s.exe"), ip], timeout=20, env={"UNPUT_K": str(k)})
+            env = {"UNPUT_K": str(k)}
+            if inmem:
+                env["UNPUT_BYTES"] = "1"
+            rc, out, err = run([os.path.join(wd, "s.exe"), ip], timeout=20, env=env)
             toks = scanner.parse_tokens(out)
             overflow = b"push-back overflow" in err
             if rc != 0 and not overflow:
                 res['problems'].append(('scanner-abnormal', "bufsize=%d file=%s unputs=%d rc=%s stderr=%s" % (n, bytes(data).hex(), k, rc, err[:200])))
                 continue
-            reals.append((L, pos, k, overflow, [t[2] for t in toks[pos + 1:]] if not overflow else None, toks[:pos + 1]))
+            reals.append((L, pos, k, overflow, [t[2] for t in toks[pos + 1:]] if not overflow else None, toks[:pos + 1], inmem))
             cs = [49 + i % 9 for i in range(k)]
-            queries.append("(unputrun %d %d %d (%s) (%s))" % (n, L, pos + 1, " ".join(map(str, data)), " ".join(map(str, cs))))
+            queries.append("(unputrun %d %d %d (%s) (%s))" % (L if inmem else n, L, pos + 1, " ".join(map(str, data)), " ".join(map(str, cs))))
         case_sx = "(case %s\n(queries (%s)))\n" % (scanner.sx_program(prog), "\n".join(queries))
         rc, out, err = scanner.run_driver(case_sx, wd, timeout=120)
         if rc != 0:
             res['problems'].append(('driver-error', "rc=%s %s" % (rc, err[:300])))
             return res
         lines = [l for l in out.splitlines() if l.startswith("unputrun")]
-        for (L, pos, k, overflow, hashes, head), line in zip(reals, lines):
+        for (L, pos, k, overflow, hashes, head, inmem), line in zip(reals, lines):
             res['unput_runs'] += 1
             parts = line.split()
             m_over = parts[1] == "OVERFLOW"
-            desc = "back end %s, buffer size %d, %d bytes buffered, token x at offset %d, %d x yyunput" % (be, n, L, pos, k)
+            desc = "back end %s, %s, %d bytes buffered, token x at offset %d, %d x yyunput" % (
+                be, "buffer of yy_scan_bytes" if inmem else "buffer size %d" % n, L, pos, k)
             if m_over != overflow:
                 res['problems'].append(('unput-overflow-mismatch', "%s: the scanner %s, the buffer model (coq/Unput.v, unput_overflow_iff) says %s" % (
                     desc, "stops with 'push-back overflow'" if overflow else "goes on", "overflow" if m_over else "there is room")))
